@@ -35,6 +35,31 @@ func nodeSeq(maxT, maxN int) {
 	}
 }
 
+// nodeSeqSample adds pseudo-random larger triples (t <= 64, n <= 400) from VERIF_SEED
+func nodeSeqSample(count int) {
+	enc := json.NewEncoder(os.Stdout)
+	seed, _ := strconv.ParseUint(os.Getenv("VERIF_SEED"), 10, 64)
+	st := seed*0x9e3779b97f4a7c15 + 12345
+	next := func(k int) int {
+		st += 0x9e3779b97f4a7c15
+		z := st
+		z = (z ^ (z >> 30)) * 0xbf58476d1ce4e5b9
+		z = (z ^ (z >> 27)) * 0x94d049bb133111eb
+		z ^= z >> 31
+		return int(z % uint64(k))
+	}
+	for i := 0; i < count; i++ {
+		t := 1 + next(64)
+		p := next(t)
+		n := next(401)
+		c := nodeSeqCase{P: p, T: t, N: n, Seq: []int{}}
+		for x := range iec.NodeSequenceForPart(p, t, n) {
+			c.Seq = append(c.Seq, x)
+		}
+		_ = enc.Encode(c)
+	}
+}
+
 func main() {
 	if len(os.Args) < 2 {
 		fmt.Fprintln(os.Stderr, "usage: ec nodeseq <maxT> <maxN>")
@@ -45,6 +70,7 @@ func main() {
 		maxT, _ := strconv.Atoi(os.Args[2])
 		maxN, _ := strconv.Atoi(os.Args[3])
 		nodeSeq(maxT, maxN)
+		nodeSeqSample(maxN * 2)
 	case "nodeseq1":
 		p, _ := strconv.Atoi(os.Args[2])
 		t, _ := strconv.Atoi(os.Args[3])
